@@ -6,6 +6,7 @@ from gen import clck as gen_clck
 ID = "C09"
 LEVEL = "proof"
 LEAN_MODULES = ["OsmoVerif.Props.C09"]
+DRIVER_MODULES = ["Clck"]
 LEAN_MODEL_MODULES = ["OsmoVerif.Model.Clck", "OsmoVerif.Lemmas.Clck"]
 ASSUMPTIONS = [
     "theorems are about OsmoVerif.Model.Clck: a hand model of CLCKGen._worker / send_clck_ind / start / stop as a transition system over VIRTUAL integer nanoseconds: time.monotonic_ns() returns the virtual time, _breaker.wait(dt) advances it by exactly dt, the handler of tick k advances it by an arbitrary scripted d_k, nothing else takes time",
